@@ -1136,6 +1136,10 @@ class Interp:
         return self.binop(_BINOPS[type(node.op)], a, b)
 
     def binop(self, op, a, b):
+        for x in (a, b):
+            if isinstance(x, V.TorchElem) and x.arr.writes != x.stamp:
+                # torch: the 0-dim view shows the base's CURRENT element; the engine holds the value at the time of the read
+                raise OutOfSubset("a 0-dim tensor view is read after its base tensor was written (the view aliases the new value)")
         h = self.reg.binop_models.get((type(a), op)) or self.reg.binop_models.get((type(b), op))
         if h is not None:
             r = h(self, op, a, b)
